@@ -562,7 +562,10 @@ func genRobust(r *repo) string {
 		}
 		// repair of F15: inside `if leadingPartTrack == nil { … }`, before the error, a segment without any sample is skipped —
 		// for every stream (`if partsAreEmpty(parts)`) or for renditions only (`if !p.isLeading && partsAreEmpty(parts)`)
-		skipAll := g["partsAreEmpty(parts)"] == "return-nil"
+		// … and, refined, only when the body has at least one fragment (`len(parts) != 0 && …`): a body without any `moof`
+		// (an empty 200 answer) stays the fatal error
+		skipFrag := g["len(parts) != 0 && partsAreEmpty(parts)"] == "return-nil"
+		skipAll := g["partsAreEmpty(parts)"] == "return-nil" || skipFrag
 		skipRend := g["!p.isLeading && partsAreEmpty(parts)"] == "return-nil"
 		if skipAll || skipRend {
 			if !strings.Contains(txt, "if leadingPartTrack == nil { if ") || !strings.Contains(txt, "partsAreEmpty(parts) { return nil } return fmt.Errorf(") {
@@ -577,6 +580,7 @@ func genRobust(r *repo) string {
 		fmt.Fprintf(&b, "/-- `processSegment` returns an error when no part-track of the leading track is found -/\ndef fmp4GuardNoLeadingData : Bool := %v\n", lead)
 		fmt.Fprintf(&b, "/-- … except that a segment / part in which no part-track has a sample is skipped (repair of F15) -/\ndef fmp4SkipsEmptySegments : Bool := %v\n", skipAll || skipRend)
 		fmt.Fprintf(&b, "/-- … also on the leading stream (false: renditions only) -/\ndef fmp4SkipsEmptyLeadingToo : Bool := %v\n", skipAll)
+		fmt.Fprintf(&b, "/-- … and only when the body has at least one fragment (`len(parts) != 0 &&`): no `moof` at all stays an error -/\ndef fmp4SkipNeedsFragment : Bool := %v\n", skipFrag)
 		// … and then a leading stream that reaches its end without ever having created its track processors (= the time
 		// origin the other streams wait for) must end with an error instead of `setEnded()`
 		endGuard := g["p.isLeading && p.trackProcessors == nil"] == "return-error" &&
